@@ -1600,12 +1600,14 @@ def state_census(repo, modules=None):
                             if cls.name in LONG_LIVED and \
                                     fn.name != "__init__":
                                 out.add(("attribute store outside "
-                                         "__init__", own, t.attr))
+                                         "__init__",
+                                         m.name + "." + cls.name, t.attr))
                 if isinstance(n, ast.Call) and cls is not None and \
                         cls.name in LONG_LIVED and fn.name != "__init__" and \
                         src(n.func) in ("setattr", "object.__setattr__") and \
                         n.args and src(n.args[0]) == "self":
-                    out.add(("attribute store outside __init__", own,
+                    out.add(("attribute store outside __init__",
+                             m.name + "." + cls.name,
                              src(n.args[1])[:40] if len(n.args) > 1 else "?"))
                 if isinstance(n, ast.Call) and cls is not None and \
                         cls.name in LONG_LIVED and fn.name != "__init__" and \
@@ -1624,8 +1626,8 @@ def state_census(repo, modules=None):
                         n.ctx, ast.Store) and cls is not None and \
                         cls.name in LONG_LIVED and fn.name != "__init__" and \
                         src(n.value) == "self.__dict__":
-                    out.add(("attribute store outside __init__", own,
-                             src(n.slice)[:40]))
+                    out.add(("attribute store outside __init__",
+                             m.name + "." + cls.name, src(n.slice)[:40]))
     return out
 
 
